@@ -118,6 +118,9 @@ def alto_cfgs(ctx):
             dict(base, name="arabic", Mode="line", Classes=ARAB, MaxLen=4, Situations=["peaky", "short", "nochars"]),
             dict(base, name="page", Mode="page", Classes=["a", "s"], MaxLen=1, Situations=["mid", "nocoords"], MaxBlocks=2,
                  MaxLines=2, minconfs=[0, 500000, 1000000]),
+            # two lines in ONE block, Arabic and Latin script mixed, Latin delimiters: per-line state of the export
+            dict(base, name="page-mixed-script", Mode="page", Classes=["A", "a", "d"], MaxLen=2, Situations=["peaky", "short"],
+                 MaxBlocks=1, MaxLines=2),
             dict(base, name="blocks", Mode="blocks", Classes=["a"], MaxLen=1, Situations=["nochars"], MaxBlocks=2),
         ]
     else:
@@ -132,6 +135,9 @@ def alto_cfgs(ctx):
             dict(base, name="arabic5", Mode="line", Classes=ARAB, MaxLen=5, Situations=["peaky", "short"]),
             dict(base, name="page", Mode="page", Classes=["a", "s"], MaxLen=1, Situations=["peaky", "mid", "nocoords"],
                  MaxBlocks=2, MaxLines=2, minconfs=[0, 500000, 1000000]),
+            # two lines in ONE block, Arabic and Latin script mixed, Latin delimiters: per-line state of the export
+            dict(base, name="page-mixed-script", Mode="page", Classes=["A", "a", "d"], MaxLen=3, Situations=["peaky", "short"],
+                 MaxBlocks=1, MaxLines=2),
             dict(base, name="page3", Mode="page", Classes=["a", "s"], MaxLen=2, Situations=["mid", "nologits"],
                  MaxBlocks=3, MaxLines=1, minconfs=[0, 700000], coverage=False),
             dict(base, name="blocks", Mode="blocks", Classes=["a"], MaxLen=1, Situations=["nochars"], MaxBlocks=3,
